@@ -29,6 +29,9 @@ def main() -> int:
     import warnings
 
     warnings.simplefilter("ignore")
+    import logging
+
+    logging.disable(logging.CRITICAL)
     try:
         from vf import common
     except Exception as e:  # pragma: no cover
